@@ -10,6 +10,7 @@ mod hubsync;
 mod bisync;
 mod oneway;
 mod crash;
+mod bicrash;
 mod c20;
 mod c19;
 mod c18;
@@ -31,6 +32,7 @@ fn main() {
         "c02" => bisync::main(args),
         "c04" => oneway::main(args),
         "c09" => crash::main(args),
+        "c08" => bicrash::main(args),
         "c20" => c20::main(args),
         "c19" => c19::main(args),
         "c18" => c18::main(args),
